@@ -1,9 +1,10 @@
 (* C10 -- binary pack format.  Statements only; the model is Model.Pack (codecs) + Model.PackSpec (format limits
    pack_ok, expected result of unpack), the proofs are in Proofs.PackBits / PackRoundtrip / PackRoundtripGraph /
-   PackRoundtripMol / PackLayout / PackProofs / PackRxn / F16Proofs. *)
+   PackRoundtripMol / PackLayout / PackElements / PackProofs / PackRxn / PackRxnLen / F16Proofs. *)
 From Coq Require Import ZArith List Bool.
 From Model Require Import PyBase Pack PackSpec F16.
-From Proofs Require Import PackBits PackRoundtrip PackRoundtripGraph PackRoundtripMol PackLayout PackProofs PackRxn F16Proofs.
+From Gen Require Import Elements.
+From Proofs Require Import PackBits PackRoundtrip PackRoundtripGraph PackRoundtripMol PackLayout PackElements PackProofs PackRxn PackRxnLen F16Proofs.
 Import ListNotations.
 Open Scope Z_scope.
 
@@ -31,6 +32,13 @@ Theorem C10_unpack_pack_nonvacuous :
   fwd_ct (pm_terminals pack_example) (mol_fwd [] (pm_atoms pack_example)) = [(3, 4, true)].
 Proof. exact pack_example_ok. Qed.
 Print Assumptions C10_unpack_pack_nonvacuous.
+
+(* the atom limits cover every element 1..118 with every tabulated isotope (and no isotope): the isotope offset relative
+   to the .pyx table is 1..31 *)
+Theorem C10_tabulated_isotopes_ok : forall e, In e elements ->
+  1 <= e_num e <= 118 /\ iso_ok (e_num e) None = true /\ forall k, In k (keys (e_dist e)) -> iso_ok (e_num e) (Some k) = true.
+Proof. exact tabulated_isotopes_ok. Qed.
+Print Assumptions C10_tabulated_isotopes_ok.
 
 (* LAYOUT, bit for bit: for every molecule within the format limits the bytes pack writes are the bytes of the published
    version 2 layout (PackSpec.layout_v2: ONE bit stream written from the docstring -- 8 bit 0x02, 12 bit atom count,
@@ -94,6 +102,19 @@ Theorem C10_rxn_roundtrip : forall (rs ags ps : list pmol) (prs pas pps : list (
 Proof. exact rxn_roundtrip. Qed.
 Print Assumptions C10_rxn_roundtrip.
 
+(* ReactionContainer.pack_len returns the atom counts of the molecules role by role, for ALL role sizes 0..255 with at
+   least one molecule, empty sides included (it walks the packs reading only the atom count, the neighbour nibbles and
+   the cis/trans count of every molecule but the last) *)
+Theorem C10_rxn_pack_len_correct : forall (rs ags ps : list pmol) (prs pas pps : list (list Z)),
+  Forall (fun m => pack_ok m = true) rs -> Forall (fun m => pack_ok m = true) ags -> Forall (fun m => pack_ok m = true) ps ->
+  map pack rs = map (@Ok _) prs -> map pack ags = map (@Ok _) pas -> map pack ps = map (@Ok _) pps ->
+  (length rs <= 255)%nat -> (length ags <= 255)%nat -> (length ps <= 255)%nat -> (1 <= length rs + length ags + length ps)%nat ->
+  exists bytes, rxn_pack prs pas pps = Ok bytes /\
+    rxn_pack_len bytes = Ok (map (fun m => Z.of_nat (length (pm_atoms m))) rs, map (fun m => Z.of_nat (length (pm_atoms m))) ags,
+                             map (fun m => Z.of_nat (length (pm_atoms m))) ps).
+Proof. exact rxn_pack_len_correct. Qed.
+Print Assumptions C10_rxn_pack_len_correct.
+
 (* more than 255 molecules in a role: ValueError (bytearray of the header) *)
 Theorem C10_rxn_pack_limit : forall prs pas pps : list (list Z),
   (255 < length prs \/ 255 < length pas \/ 255 < length pps)%nat -> rxn_pack prs pas pps = Err ValueError.
@@ -145,3 +166,13 @@ Theorem C10_f16_example :
   bitlen 6004799503160661 + (-54) - 1 = -2.
 Proof. exact f16_example. Qed.
 Print Assumptions C10_f16_example.
+
+(* non-vacuity of the reaction theorems: a reaction with an empty reagent side built from the molecule at the format
+   limits, evaluated in the model *)
+Theorem C10_rxn_example : exists p bytes,
+  pack pack_example = Ok p /\ pack_ok pack_example = true /\ rxn_pack [p] [] [p; p] = Ok bytes /\
+  rxn_pack_len bytes = Ok ([16], [], [16; 16]) /\
+  rxn_unpack bytes = Ok ([unpacked_of pack_example (pack_size pack_example)], [],
+                         [unpacked_of pack_example (pack_size pack_example); unpacked_of pack_example (pack_size pack_example)]).
+Proof. exact rxn_example. Qed.
+Print Assumptions C10_rxn_example.
